@@ -29,6 +29,10 @@ type Net struct {
 	nextPort  int
 	// Tap, when set, sees every stream write and every datagram ("tcp"/"udp", source, destination, bytes).
 	Tap func(kind string, src, dst net.Addr, data []byte)
+	// AfterWrite, when set, is called (without any lock held) after a stream write has been placed in the
+	// peer's receive buffer and before Write returns: a check can hold the writing goroutine there and
+	// let something else happen between two consecutive writes of one goroutine.
+	AfterWrite func(src, dst net.Addr, data []byte)
 	// Tamper, when set, may replace a datagram or stream chunk before delivery (return nil to drop).
 	Tamper func(kind string, src, dst net.Addr, data []byte) []byte
 	// RecvBuf is the receive buffer of new stream connections (bytes); writes block when it is full.
@@ -228,6 +232,14 @@ func (c *Conn) Write(b []byte) (int, error) {
 			return len(b), nil
 		}
 	}
+	n, err := c.write(b, data)
+	if err == nil && c.n.AfterWrite != nil {
+		c.n.AfterWrite(c.local, c.remote, append([]byte{}, b...))
+	}
+	return n, err
+}
+
+func (c *Conn) write(b, data []byte) (int, error) {
 	p := c.out
 	p.mu.Lock()
 	defer p.mu.Unlock()
